@@ -120,7 +120,9 @@ Inductive cev :=
 | CSubscribe (k : Z) (fs : topics)
 | CUnsubscribe (k : Z) (fs : list string)
 | CTeardown (k : Z)                     (* readLoop's deferred cleanup, at ANY later point *)
-| CAdminDelete.                         (* DELETE .../sessions + the store's delete-watch *)
+| CAdminDelete                          (* DELETE .../sessions + the store's delete-watch *)
+| CStorePut (tp : topics).              (* another broker instance on the same storage writes this id's (persistent)
+                                           session; modelled only while no connection is registered here *)
 
 Definition get_sess (cs : cstate) (sid : Z) : session :=
   match zget sid (heap cs) with
@@ -297,6 +299,11 @@ Definition cstep (q : quirks) (cs : cstate) (e : cev) : cstate :=
       | None => cs
       end
   | CAdminDelete => delete_session (set_dbv None cs)
+  | CStorePut tp =>
+      match reg cs with
+      | None => set_dbv (Some (false, aset_all String.eqb tp [])) cs
+      | Some _ => cs
+      end
   end.
 
 Definition crun (q : quirks) (cs : cstate) (es : list cev) : cstate := fold_left (cstep q) es cs.
@@ -313,6 +320,7 @@ Inductive ev :=
 | Unsubscribe (k : Z) (fs : list string)
 | Teardown (k : Z)
 | AdminDelete (cid : string)
+| StorePut (cid : string) (tp : topics)
 | Publish (topic : string).                           (* observation only *)
 
 Definition cget (st : state) (cid : string) : cstate :=
@@ -340,6 +348,7 @@ Definition step (q : quirks) (st : state) (e : ev) : state :=
   | Unsubscribe k fs => at_owner q k (CUnsubscribe k fs) st
   | Teardown k => at_owner q k (CTeardown k) st
   | AdminDelete cid => at_cid q cid CAdminDelete st
+  | StorePut cid tp => at_cid q cid (CStorePut tp) st
   | Publish _ => st
   end.
 
